@@ -262,7 +262,7 @@ def run_sync_job(job: dict, res: JobResult) -> None:
         cfg = _sync_cfg(job, sizes)
         found: list[tuple[str, Ctx, dict]] = []
 
-        def check(ctx: Ctx, obs: dict) -> None:
+        def check(ctx: Ctx, obs: dict) -> bool:
             res.evaluations += 1
             bad = oracle_sync(obs)
             res.outcome(obs["result"][0] if bad is None else "VIOLATION:" + bad)
@@ -270,8 +270,11 @@ def run_sync_job(job: dict, res: JobResult) -> None:
                 res.nontrivial.add(digest((job["path"], job["timeout"], job["retry"], obs["result"], obs["wire"], round(obs["elapsed"], 3))))
             if bad is not None:
                 found.append((bad, ctx, obs))
+            return bad is not None
 
-        stats = explore(lambda ctx: run_sync(ctx, cfg), bound=10 ** 9, check=check, use_states=True, max_runs=200000)
+        # (violation_budget: a library that stops deducting waits from the budget makes the state space unbounded; once a violation is in
+        # hand the configuration is abandoned after 500 more executions)
+        stats = explore(lambda ctx: run_sync(ctx, cfg), bound=10 ** 9, check=check, use_states=True, max_runs=200000, violation_budget=500)
         res.states += stats["states"]
         res.transitions += stats["points"]
         res.evaluations += stats["pruned"]
